@@ -1680,7 +1680,11 @@ func (x *Exec) atReturn(st *State, fr *Frame, rets []Val) {
 		x.proveClause(st, env2, e, fmt.Sprintf("%s/on-return:%s", x.fname, labelOr(e.Label, k)), "on-return", where)
 	}
 	if fc.HasModifies && !fc.ModAll {
-		x.frameCheck(st, fr, env)
+		if fc.FrameAssumed {
+			x.trust("frame of " + x.fname + " (its modifies clause) is assumed, not checked against the body")
+		} else {
+			x.frameCheck(st, fr, env)
+		}
 	}
 }
 
